@@ -361,12 +361,32 @@ func (g *gen) histConc(o concOpts) {
 	}
 	done := make(chan struct{})
 	go func() { wg.Wait(); close(done) }()
+	// deadlock watchdog: no transaction began or ended for HangAfter (measured
+	// on progress, not on the duration of the whole history: a large
+	// race-instrumented history on a busy machine runs for minutes)
+	hung := make(chan struct{})
+	go func() {
+		last, since := atomic.LoadInt64(&c.tick), time.Now()
+		for {
+			select {
+			case <-done:
+				return
+			case <-time.After(time.Second):
+			}
+			if now := atomic.LoadInt64(&c.tick); now != last {
+				last, since = now, time.Now()
+			} else if time.Since(since) > hx.HangAfter {
+				close(hung)
+				return
+			}
+		}
+	}()
 	select {
 	case <-done:
-	case <-time.After(hx.HangAfter):
+	case <-hung:
 		// deadlock: some goroutine never got the lock
 		g.s.R.Emit(hx.Ev{"op": "reset", "family": g.c.Family, "hist": g.hist})
-		g.s.R.Emit(hx.Ev{"op": "begin", "panic": "deadlock: the goroutines did not finish within " + hx.HangAfter.String(), "err": true, "t0": 0, "t1": 0})
+		g.s.R.Emit(hx.Ev{"op": "begin", "panic": "deadlock: no transaction began or ended for " + hx.HangAfter.String(), "err": true, "t0": 0, "t1": 0})
 		g.s.R.Close()
 		if g.s.OnHang != nil {
 			g.s.OnHang()
